@@ -742,6 +742,13 @@ def judge_random(spec, rec):
             registered = dict(values)
             reg_before = snap(registered)
             CLASSES[cname].register_defaults(registered)
+            # defaults on a second level of the class chain as well (a seeded change merged the subclass's registered
+            # defaults INTO the superclass's table while constructing)
+            second = None
+            if cname not in ('ItemGrader', 'AbstractGrader'):
+                second = dict(DEFAULTS[1][1])
+                ItemGrader.register_defaults(second)
+                seen.add('registered-defaults-two-levels')
             try:
                 H.g0 = gsnap()
                 when = 'op %d: with %s.register_defaults(%r), constructing %s' % (n, cname, values, tname)
@@ -758,6 +765,8 @@ def judge_random(spec, rec):
                     check_author('registered-defaults', clsname, registered, reg_before, when + ', then calling it')
             finally:
                 CLASSES[cname].clear_registered_defaults()
+                if second is not None:
+                    ItemGrader.clear_registered_defaults()
             H.g0 = check_global(g_clean, 'op %d: register_defaults + clear_registered_defaults (%s)' % (n, cname))
             seen.add('registered-defaults')
             log.append('defaults')
